@@ -538,6 +538,11 @@ class Registry:
         if h is not None:
             h(ip)
 
+    def index_used(self, ip, k):
+        h = getattr(self, "index_used_hook", None)
+        if h is not None:
+            h(ip, k)
+
     def loop_index(self, ip, i):
         h = getattr(self, "loop_index_hook", None)
         if h is not None:
